@@ -213,6 +213,18 @@ def check(pid, tier, seed):
         single.append({"name": "readconfig-dropins-only-retry:%s" % cdirs, "call": "read", "init": "object",
                        "script": mkd + twice(["newopt 1 %s" % hx(cdirs + "ROOT_PREFIX=" + dr + "/nothing-here"), "readconfig 1 %s %s - %s x3d x23" % (hx("prj"), hx("/usr/lib"), hx("conf")),
                                               "readconfig 1 %s %s - %s x3d x23" % (hx("prj"), hx("/usr/lib"), hx("conf")), "readconfig 1 %s %s %s %s x3d x23" % (hx("prj"), hx("/usr/lib"), hx("cfg"), hx("conf")), "free 1"])})
+    # layered reads WITHOUT suffix (empty and absent): every entry of a drop-in directory is a candidate then - `.` and `..` included -
+    # and whatever is read on the way is released again
+    NS = R + "/nosfx"
+    nos_files = ["file %s %s" % (hx(NS + "/usr/etc/cfg"), hx("a=1\n")), "file %s %s" % (hx(NS + "/usr/etc/cfg.d/one"), hx("b=2\n")),
+                 "file %s %s" % (hx(NS + "/etc/cfg.d/two.conf"), hx("c=3\n")), "file %s %s" % (hx(NS + "/etc/cfg.d/three"), hx("a=4\n"))]
+    for nm, sfx_ in (("empty", hx("")), ("null", "-")):
+        single.append({"name": "readdirs-nosuffix-" + nm, "call": "free", "init": "null", "ops": ("none",),
+                       "script": nos_files + twice(["readdirs 1 %s %s %s %s x3d x23" % (hx(NS + "/usr/etc"), hx(NS + "/etc"), hx("cfg"), sfx_), "dump 1", "free 1"])})
+        single.append({"name": "readconfig-nosuffix-" + nm, "call": "free", "init": "null", "ops": ("none",),
+                       "script": nos_files + twice(["newopt 1 %s" % hx("PARSING_DIRS=%s/usr/etc:%s/etc" % (NS, NS)), "readconfig 1 - - %s %s x3d x23" % (hx("cfg"), sfx_), "dump 1", "free 1"])})
+        single.append({"name": "readhist-nosuffix-" + nm, "call": "free", "init": "null", "ops": ("none",),
+                       "script": nos_files + twice(["readhist 1 %s %s %s %s x3d x23" % (hx(NS + "/usr/etc"), hx(NS + "/etc"), hx("cfg"), sfx_)] + ["free %d" % k for k in range(1, 9)])})
     single.append({"name": "readdirs-nofile", "call": "read", "init": "null",
                    "script": twice(["readdirs 1 %s %s %s %s x3d x23" % (hx(R + "/e1"), hx(R + "/e2"), hx("c"), hx("conf")), "free 1"])})
     single.append({"name": "readhist-nofile", "call": "read", "init": "null",
@@ -270,7 +282,7 @@ def check(pid, tier, seed):
         nvg = valgrind_sample(cases, rnd, verdict)
     rc = verdict.finish()
     cov = {"evaluations": len(scen) + len(single), "distinct_nontrivial": nn + sum(1 for s in single if s["init"] == "object" or s["name"].startswith("newopt")),
-           "rule": "fault enumeration: %d layered-read scenarios = trees (3 layers via econf_readConfigWithCallback with an option-initialised key_file; 2 layers via econf_readDirsWithCallback, econf_readDirsHistoryWithCallback, econf_readConfigWithCallback+PARSING_DIRS) x {no fault} + for EACH consulted file in turn {callback rejection, foreign owner under econf_requireOwner, file mode or directory mode refused under econf_requirePermissions, malformed line, drop-in that is a symbolic link to nowhere} and main files that are symbolic links to nowhere in each layer; + %d single calls on failing paths (missing / malformed file, single files by every form of relative name, rejected single file, unknown and repeated option items, no file with NULL- and option-initialised key_file, drop-ins-only reads through option objects with 0..3 own drop-in directories incl. a handle used again after a read that found nothing, NULL arguments, merge with NULL, free(NULL)) %d random conventional files of the plain / JOIN_SAME_ENTRIES / PYTHON_STYLE grammars (15 %% with a malformed line) read through an option object, listed in full and released, and %d random API histories of 5..60 calls. Every scenario runs twice in one process; ASan's live-byte count around the second run must not move after the caller released all valid handles (Trace_Lifecycle: heap_delta = 0, out-pointer in OutPtrAllowed, free functions return NULL; Trace_Layers: return code, callbacks, content). ASan aborts on double free / use after free. valgrind memcheck sample: %d. non-trivial = fault at a position >= 2 or an option-initialised key_file." % (
+           "rule": "fault enumeration: %d layered-read scenarios = trees (3 layers via econf_readConfigWithCallback with an option-initialised key_file; 2 layers via econf_readDirsWithCallback, econf_readDirsHistoryWithCallback, econf_readConfigWithCallback+PARSING_DIRS) x {no fault} + for EACH consulted file in turn {callback rejection, foreign owner under econf_requireOwner, file mode or directory mode refused under econf_requirePermissions, malformed line, drop-in that is a symbolic link to nowhere} and main files that are symbolic links to nowhere in each layer; + %d single calls on failing paths (missing / malformed file, single files by every form of relative name, layered reads with an empty and with an absent suffix, rejected single file, unknown and repeated option items, no file with NULL- and option-initialised key_file, drop-ins-only reads through option objects with 0..3 own drop-in directories incl. a handle used again after a read that found nothing, NULL arguments, merge with NULL, free(NULL)) %d random conventional files of the plain / JOIN_SAME_ENTRIES / PYTHON_STYLE grammars (15 %% with a malformed line) read through an option object, listed in full and released, and %d random API histories of 5..60 calls. Every scenario runs twice in one process; ASan's live-byte count around the second run must not move after the caller released all valid handles (Trace_Lifecycle: heap_delta = 0, out-pointer in OutPtrAllowed, free functions return NULL; Trace_Layers: return code, callbacks, content). ASan aborts on double free / use after free. valgrind memcheck sample: %d. non-trivial = fault at a position >= 2 or an option-initialised key_file." % (
                len(scen), len(single) - nh - nf, nf, nh, nvg),
            "samples": lev[:2] + lev[-1:], "exhaustive": False, "model_states": mc.distinct, "traces_validated_against_impl": len(lev) - len(mism),
            "trusted_base": ["gcc ASan allocator accounting (__sanitizer_get_current_allocated_bytes)", "TLC 1.8.0", "drv.c", "valgrind memcheck (thorough)"]}
